@@ -105,6 +105,8 @@ class Slice:
                 return a - b * int(a / b) if b else None
             if op in ('<', '<=', '>', '>=', '==', '!='):
                 return int({'<': a < b, '<=': a <= b, '>': a > b, '>=': a >= b, '==': a == b, '!=': a != b}[op])
+            if op in ('<<', '>>') and (b < 0 or b > 4096):
+                return None
             if op in ('&', '|', '^', '<<', '>>'):
                 return {'&': a & b, '|': a | b, '^': a ^ b, '<<': a << b, '>>': a >> b}[op]
             return None
@@ -177,7 +179,8 @@ class Slice:
                     else:
                         lt = l.get('ty') or ''
                         sc = self.scale(lt) if lt.replace('const', '').strip().endswith('*') else 1
-                        v = {'+': a + b * sc, '-': a - b * sc, '*': a * b, '&': a & b, '|': a | b, '<<': a << b, '>>': a >> b}.get(op)
+                        v = {'+': lambda: a + b * sc, '-': lambda: a - b * sc, '*': lambda: a * b, '&': lambda: a & b, '|': lambda: a | b,
+                             '<<': lambda: a << b if 0 <= b <= 4096 else None, '>>': lambda: a >> b if 0 <= b <= 4096 else None}.get(op, lambda: None)()
                         if op == '/' and b:
                             v = int(a / b)
                         if op == '%' and b:
